@@ -2,7 +2,7 @@
    Model: Model/Passes.v (assemble_items; relocate_hi/lo are the GENERATED functions), tied to asm.assemble by the
    pipeline correspondence. *)
 From Coq Require Import ZArith List String.
-From BB Require Import Base.PyBase Gen.Encoders Model.Items Model.Encode Model.Passes
+From BB Require Import Base.PyBase Gen.Encoders Gen.PassTable Proofs.PassOrder Model.Items Model.Encode Model.Passes
   Proofs.Layout Proofs.Pipeline Proofs.Targets Proofs.Stable Proofs.Examples.
 Import ListNotations.
 Open Scope Z_scope.
@@ -66,3 +66,13 @@ Example C08_example :
   nonneg ex_its /\ NoDup (gnames ex_its) /\
   (exists r, assemble_items ex_its [] [] true = Done r /\ r_labels r = [("a", 0); ("b", 8)]%string).
 Proof. exact (conj ex_nonneg (conj ex_nodup ex_runs_c)). Qed.
+
+(* "final addresses": the three size-changing passes move the labels behind a shrunk item by exactly the amount it shrank --
+   the model's shrink_after (v > position -> v - d) -- and the SOURCE's label updates have that shape, every one of them
+   (Gen/PassTable.v label_updates, regenerated on every run: comparison `>` with position, subtrahend old - new size) *)
+Theorem C08_label_updates_from_source :
+  forallb PassOrder.update_ok Gen.PassTable.label_updates = true /\
+  forallb (fun p => existsb (fun u => String.eqb (fst (fst u)) p) Gen.PassTable.label_updates)
+          ["transform_compressible"; "transform_pseudo_instructions"; "resolve_aligns"]%string = true.
+Proof. exact PassOrder.label_updates_ok. Qed.
+Print Assumptions C08_label_updates_from_source.
